@@ -28,17 +28,17 @@ struct StringRun {
     }
     void verify(S& s, const U& m, const char* which) {
         const S& cs = s; const std::string w = which; const size_t n = m.size();
-        if (cs.size() != n || cs.length() != n) { R.bad("size", w + ".size()"); R.stop = true; return; }
-        if (cs.empty() != m.empty()) R.bad("empty", w + ".empty() disagrees with length()");
+        if (cs.size() != n || cs.length() != n) { R.inconsistent("size", w + ".size()"); R.stop = true; return; }
+        if (cs.empty() != m.empty()) R.inconsistent("empty", w + ".empty() disagrees with length()");
         const XalanDOMChar* p = cs.c_str();
-        if (!p || cs.data() != p) { R.bad("c_str", w + ".c_str()/data()"); R.stop = true; return; }
-        if (p[n] != 0) R.bad("terminator", w + ".c_str()[length()] is not NUL");
-        if (cs.capacity() < n) R.bad("capacity", w + ".capacity() < length()");
-        for (size_t i = 0; i < n; ++i) if (cs[(sz)i] != m[i] || s[(sz)i] != m[i]) { R.bad("index", w + "[" + std::to_string(i) + "]"); break; }
-        if ((size_t)(cs.end() - cs.begin()) != n || (size_t)(s.end() - s.begin()) != n) { R.bad("iterators", w + ": end()-begin() is " + std::to_string(cs.end() - cs.begin()) + " with length " + std::to_string(n)); return; }
-        if (!std::equal(cs.begin(), cs.end(), m.begin())) R.bad("iteration", w + " forward iteration");
+        if (!p || cs.data() != p) { R.inconsistent("c_str", w + ".c_str()/data()"); R.stop = true; return; }
+        if (p[n] != 0) R.inconsistent("terminator", w + ".c_str()[length()] is not NUL");
+        if (cs.capacity() < n) R.inconsistent("capacity", w + ".capacity() < length()");
+        for (size_t i = 0; i < n; ++i) if (cs[(sz)i] != m[i] || s[(sz)i] != m[i]) { R.inconsistent("index", w + "[" + std::to_string(i) + "]"); break; }
+        if ((size_t)(cs.end() - cs.begin()) != n || (size_t)(s.end() - s.begin()) != n) { R.inconsistent("iterators", w + ": end()-begin() is " + std::to_string(cs.end() - cs.begin()) + " with length " + std::to_string(n)); return; }
+        if (!std::equal(cs.begin(), cs.end(), m.begin())) R.inconsistent("iteration", w + " forward iteration");
         U rv; for (S::const_reverse_iterator it = cs.rbegin(); it != cs.rend(); ++it) { rv += *it; if (rv.size() > n + 2) break; }
-        if (rv != U(m.rbegin(), m.rend())) R.bad("reverse-iteration", w + " backwards is " + show(rv) + ", forwards " + show(m));
+        if (rv != U(m.rbegin(), m.rend())) R.inconsistent("reverse-iteration", w + " backwards is " + show(rv) + ", forwards " + show(m));
     }
     std::string stateOf(const S& s, const U& m) const {
         std::string r = s.capacity() == 0 ? "no-buffer" : m.empty() ? "empty-with-buffer" : s.capacity() == m.size() ? "full" : "has-room";
@@ -51,7 +51,7 @@ struct StringRun {
         } else {
             size_t hit = ok.size(); for (size_t i = ok.size(); i-- > 0;) if (ok[i] == S_) { hit = i; break; }
             if (hit == ok.size()) { R.corrupt("state", std::string(which) + " is " + show(S_) + "; before " + show(model) + ", intended " + show(ok.back())); R.res.count("fault-state:unacceptable"); }
-            else R.res.count(std::string("fault-state:") + (hit + 1 == ok.size() ? (S_ == model ? "noop" : "full") : hit == 0 ? "none" : "prefix"));
+            else if (which[0] == 'A') R.res.count(std::string("fault-state:") + (hit + 1 == ok.size() ? (S_ == model ? "noop" : "full") : hit == 0 ? "none" : "prefix"));
         }
         model = S_;
     }
